@@ -83,8 +83,23 @@ def bases():
         35: [((edited2,), {}, ''), ((_dm({'a': [1, 2], 'b': ['x', 'z']}),), {}, '')],
         36: [((_dm({'a': [1.5, 2.0]}),), {}, '')],
         37: [((_dm({'a': [1, 2]}), 1), {'m': _dm({'a': [1, 3]})}, '')],
+        # equal strings that are one object vs two objects (a pickle-derived key tells them apart through its
+        # back-references): nested dict keys, and a keyword name that is also a dict key
+        38: [(({_K1: {_K1: 1}},), {}, ''), (({_K1: {_K2: 1}},), {}, ''), (({_K2: {_K1: 1}},), {}, '')],
+        39: [(({_K1: 2},), {_K1: 3}, ''), (({_K2: 2},), {_K1: 3}, '')],
     }
     return B
+
+
+_K1 = 'hello_world'
+_K2 = ''.join(['hello', '_world'])        # equal to _K1, another object
+assert _K1 == _K2 and _K1 is not _K2
+
+
+def _fresh(s):
+    """An equal string that is a new object, so that the pickled size of what the body returns does not depend on
+    which of the caller's strings happen to be one object."""
+    return (s + ' ')[:-1] if isinstance(s, str) else s
 
 
 def canon(x):
@@ -97,13 +112,13 @@ def canon(x):
     if isinstance(x, float):
         return ['float', x]
     if isinstance(x, str):
-        return ['str', x]
+        return ['str', _fresh(x)]
     if x is None:
         return ['none']
     if isinstance(x, (list, tuple)):
         return ['seq'] + [canon(v) for v in x]
     if isinstance(x, dict):
-        return ['map'] + [[k, canon(v)] for k, v in sorted(x.items())]
+        return ['map'] + [[_fresh(k), canon(v)] for k, v in sorted(x.items())]
     if isinstance(x, DataMatrix):
         return ['dm', len(x)] + [[name, type(col).__name__, [canon(v) for v in col]] for name, col in x.columns]
     if callable(x):
@@ -215,7 +230,7 @@ class C20:
     rule = ('seeded call histories (4-12 operations quick, 10-40 thorough) over 1-4 memoize instances wrapping one '
             'body: every combination of persistent x key(None/explicit) x lazy x max_size(1 GiB, 0, below one value, '
             '1-4 values) is used as first instance, further instances share or do not share one of 3 temp folders; '
-            'operations: call with one of 38 argument classes (int/float/bool/str/None scalars, positional pairs, '
+            'operations: call with one of 40 argument classes (int/float/bool/str/None scalars, positional pairs, '
             'lists vs tuples (same class), nested containers, dicts, keyword forms, unicode, DataMatrix values equal / '
             'differing in one cell / one column name / row order / column type), thunk variants in lazy instances, '
             'clear(), new instance (constructed directly or through memoize(**options)(fnc)); the returned object is '
